@@ -12,4 +12,5 @@ EXES = [
     {"name": "races", "sources": ["harness/races.cpp"]},
     {"name": "bulk", "sources": ["harness/bulk.cpp"]},
     {"name": "streams", "sources": ["harness/streams.cpp"]},
+    {"name": "timers", "sources": ["harness/timers.cpp"]},
 ]
